@@ -24,7 +24,12 @@ def _proto(password_function=None):
 
 def replay_do_authenticate(model):
     from twisted.internet import defer
-    adv = [m for m in ('SAFECOOKIE', 'COOKIE', 'HASHEDPASSWORD', 'NULL') if model.get('advertised_' + m)]
+    if any(('method%d' % i) in model for i in range(4)):
+        import re as _re
+        # Tor's own order of the advertised tokens (tokens that are not method names are kept when they are harmless words)
+        adv = [t for t in (model.get('method%d' % i) for i in range(4)) if isinstance(t, str) and _re.fullmatch(r'[A-Za-z0-9_]+', t)]
+    else:
+        adv = [m for m in ('SAFECOOKIE', 'COOKIE', 'HASHEDPASSWORD', 'NULL') if model.get('advertised_' + m)]
     has_cf = bool(model.get('has_cookiefile_field'))
     cond = 'ok' if model.get('cookie_readable_32') else ('io' if model.get('cookie_unreadable') else 'bad')
     has_pw = bool(model.get('has_password_provider'))
